@@ -7,7 +7,11 @@ gen = ['Gen/CurveConsts.v', 'Gen/FfConsts.v', 'Gen/FfgConsts.v', 'Gen/GoldTables
       ['Gen/PoseidonT%d.v' % t for t in range(2, 18)]
 if any(f.startswith('Proofs/FfRoutinesEq') for f in files):
     gen += ['Gen/FfRoutines.v', 'Gen/FfgRoutines.v']
-if any(f.startswith('Proofs/EffectsVerdict') for f in files):
+if any(f.startswith('Proofs/AsmProofs') for f in files):
+    gen.append('Gen/FfAsm.v')
+if any(f.startswith('Proofs/BigIntEq') for f in files):
+    gen.append('Gen/BigIntRoutines.v')
+if any(f.startswith('Proofs/EffectsDocumented') for f in files):
     gen.append('Gen/EffectsIR.v')
 open(C + '/_CoqProject', 'w').write('-Q . Verif\n' + '\n'.join(gen + files) + '\n')
 print(len(gen) + len(files), 'files')
